@@ -84,10 +84,11 @@ def set_coefficients(mps, aseed: int):
                 continue
             seen.add(id(q))
             a = q.alpha
-            if a.dim() == 1:
-                a.copy_(scores(a.shape[0], None, aseed, name))
+            v = scores(a.shape[0], None if a.dim() == 1 else a.shape[1], aseed, name)
+            if aseed % 2:
+                a.data.copy_(v)     # the library's own idiom: does not bump the version counter
             else:
-                a.copy_(scores(a.shape[0], a.shape[1], aseed, name))
+                a.copy_(v)
 
 
 def mps_input(spec, xseed: int, clip: float = 1.0, batch: int = 2):
